@@ -12,7 +12,7 @@
    [pinned] is the pre-fix code (380c75d), kept only for the two historical refutations. *)
 From Coq Require Import List ZArith.
 Import ListNotations.
-From TskVerif Require Import Base.Common C02.Fl C02.Model C02.Spec C02.Sound C02.SweepComplete C02.Refuted C02.Top C02.BuildIndex C02.Reach C02.ErrClass C02.RowCode C02.Wrapper C02.BridgeC13.
+From TskVerif Require Import Base.Common C02.Fl C02.Model C02.Spec C02.Sound C02.SweepComplete C02.Refuted C02.Top C02.BuildIndex C02.Reach C02.ErrClass C02.RowCode C02.Wrapper C02.BridgeC13 C02.Final.
 Open Scope Z_scope.
 
 (* (a) memory safety: whatever the cell values, the gate never indexes out of bounds — every id
@@ -183,6 +183,22 @@ Theorem c13_backs_shape :
     nind t = C13.Model.nrows ti -> 0 <= C13.Model.nrows ti ->
     ShapeOK t.
 Proof. exact c13_backs_shape_lemma. Qed.
+
+(* (k) stale-index histories: rewriting the edge table of a collection that has an index keeps the
+   index exactly when the row count is unchanged (a STALE index, then judged by the gate as it is);
+   when the count changed the collection is unindexed and tskit.load can never accept it.  FULL. *)
+Theorem edges_rewrite_index : forall t rows t' Ix Ox,
+  apply (OpEdges rows) t = Some t' -> idx t = Some (Ix, Ox) -> length Ix = length Ox ->
+  (length rows <> length Ix -> idx t' = None /\ forall n, load_gate t' <> Ok n) /\
+  (length rows = length Ix -> idx t' = Some (Ix, Ox)).
+Proof. exact edges_rewrite_index_lemma. Qed.
+
+(* (l) a documented requirement the gate does NOT enforce, stated and refuted: a reachable
+   collection is accepted although the nearest earlier mutation at the same site on the same node
+   is not listed as the parent (docs: mutation requirements; known finding C02-D1).  REFUTED. *)
+Theorem doc_mutation_parent_refuted :
+  exists t n, Reach t /\ check t = Ok n /\ ~ DocMutParentSameNode t.
+Proof. exact doc_mut_parent_refuted_lemma. Qed.
 
 (* (d) HISTORICAL RECORD, about the PINNED pre-fix code only (not the current model): full
    soundness failed before e4937b5 / c14733b *)
